@@ -5,7 +5,7 @@ CONSTANTS
   MaxLeaves2 = 3
   Cells1 <- AllCells
   Cells2 <- CellsSG
-  Weights = {1, 2}
+  Weights = {0, 1, 2}
   FullLeaves = 3
   RootMinLeaves = 3
   SMLeaves = 2
